@@ -296,7 +296,7 @@ def main(argv=None):
     os.makedirs(replay_dir, exist_ok=True)
     n_obl = n_dis = n_unknown = n_sat = 0
     per_id: dict = {}
-    violations, known_hits, nonrepro, errors, unsupported, spurious = [], [], [], [], [], []
+    violations, known_hits, nonrepro, errors, unsupported, spurious, sampled = [], [], [], [], [], [], []
     inexhaustive = []
     fidelity_run = fidelity_ok = 0
     fidelity_bad = []
@@ -313,6 +313,9 @@ def main(argv=None):
         solver_time += res["solver_time_s"]
         errors.extend(f"[{res['label']}] {e}" for e in res["errors"])
         unsupported.extend(f"[{res['label']}] {e}" for e in res["unsupported"])
+        for note in res.get("sampled", []):
+            if f"[{res['label']}] {note}" not in sampled:
+                sampled.append(f"[{res['label']}] {note}")
         if not res["exhaustive"]:
             inexhaustive.append({"task": res["label"], "cap": res.get("cap_hit", "unsupported/timeout")})
         f = res["fidelity"]
@@ -388,6 +391,8 @@ def main(argv=None):
         print("HARNESS-ERROR:", e[-1500:])
     for u in unsupported[:10]:
         print("INCONCLUSIVE (outside the encoding):", u[:600])
+    for smp in sampled[:10]:
+        print("SAMPLED (not exhaustive on these paths):", smp[:300])
     if fidelity_bad:
         for b in fidelity_bad[:5]:
             print("HARNESS-ERROR: path-witness replay disagrees with the encoding:", b.get("task"), json.dumps(b.get("detail"), default=repr)[:600], "inputs:", json.dumps(b.get("witness", {}).get("inputs"), default=repr)[:300])
@@ -426,9 +431,10 @@ def main(argv=None):
              "wall_s": r.get("task_wall_s"), "exhaustive": r["exhaustive"], "aborted_paths": r.get("aborted_paths", 0)}
             for r in (results if len(results) <= 400 else sorted(results, key=lambda r: -(r.get("task_wall_s") or 0))[:400])
         ],
-        "exhaustive": not inexhaustive and not unsupported and not errors and not spurious and not n_unknown,
+        "exhaustive": not inexhaustive and not unsupported and not errors and not spurious and not n_unknown and not sampled,
         "not_exhaustive": inexhaustive,
         "unsupported": unsupported[:20],
+        "sampled_operations": sampled[:50],
         "functions_encoded": _hash_functions(getattr(mod, "FUNCTIONS", [])),
         "bounds": mod.bounds(tier) if hasattr(mod, "bounds") else {},
         "solver": {"engine": "z3 " + _z3v(), "queries": queries, "solver_time_s": round(solver_time, 3)},
